@@ -28,6 +28,8 @@ LEVEL_ASSUMPTIONS = ["oracle: own average-rank computation and BFS table of "
 def REQUIRED(tier):  # noqa: N802
     return {"instances_judged": 1000, "with_duplicates": 300,
             "big_instances_judged": 20,
+            "sequences_with_identical_object_repeated": 100,
+            "dist[absabs+1]": 50,
             "ties_inside_horizon": 300, "beyond_horizon_entries": 1000,
             "swap_pairs": 518400 + 14400 + 576 + 36 + 4 + 1
             if tier == "quick" else 25_000_000}
@@ -169,6 +171,9 @@ DISTS = {
     "euclid": lambda a, b: math.hypot(a[0] - b[0], a[1] - b[1]),
     "cheb": lambda a, b: max(abs(a[0] - b[0]), abs(a[1] - b[1])),
     "absfloat": lambda a, b: abs(a - b),
+    # never zero, not even for an object and itself (the package's own
+    # doctests use such a function): nothing may be merged
+    "absabs+1": lambda a, b: abs(abs(a) - abs(b)) + 1,
 }
 
 
@@ -193,6 +198,8 @@ def gen_sequence(rng):
     span = int(rng.choice([2, 4, 8, 30]))
     if dk in ("absint", "absint+1"):
         vals = [int(rng.integers(0, span)) for _ in range(k)]
+    elif dk == "absabs+1":
+        vals = [int(rng.integers(-span, span + 1)) for _ in range(k)]
     elif dk == "absfloat":
         vals = [float(rng.integers(0, span)) / 4.0 for _ in range(k)]
     else:
@@ -202,7 +209,14 @@ def gen_sequence(rng):
     if power == int(power) and rng.integers(2):
         power = int(power)
     horizon = int(rng.choice([1, 2, 3, k, 100]))
-    return {"dist": dk, "vals": vals, "power": power, "horizon": horizon}
+    # the very same object (identity, not just value) more than once
+    same = []
+    if k >= 2 and rng.integers(3) == 0:
+        for _ in range(int(rng.integers(1, 3))):
+            i, j = sorted(int(v) for v in rng.choice(k, 2, replace=False))
+            same.append([i, j])
+    return {"dist": dk, "vals": vals, "power": power, "horizon": horizon,
+            "same": same}
 
 
 def judge_instance(ctx, case):
@@ -212,6 +226,10 @@ def judge_instance(ctx, case):
     df = DISTS[dk]
     objs = [(pos, tuple(v) if isinstance(v, list) else v)
             for pos, v in enumerate(vals)]
+    for i, j in case.get("same", []):
+        objs[j] = objs[i]            # identical object at two positions
+    if case.get("same"):
+        ctx.count("sequences_with_identical_object_repeated")
     ctx.case()
     inst = Instance.from_sequence_and_distance(
         list(objs), lambda a, b: df(a[1], b[1]), power, horizon, ("pos",),
@@ -222,13 +240,16 @@ def judge_instance(ctx, case):
     # oracle: representatives
     reps = []
     rep_of = {}
+    rep_pairs = []      # (tag of the object, index of its representative)
     for pos, v in objs:
         for ri, (rp, rv) in enumerate(reps):
             if df(v, rv) == 0:
                 rep_of[pos] = ri
+                rep_pairs.append((pos, ri))
                 break
         else:
             rep_of[pos] = len(reps)
+            rep_pairs.append((pos, len(reps)))
             reps.append((pos, v))
     k = len(reps)
     dup = k < len(objs)
@@ -240,16 +261,17 @@ def judge_instance(ctx, case):
                       case)
         return
     # tags
-    got = {}
+    got = []
     okt = True
     for tag, idx in inst.tags:
-        if len(tag) != 1 or not tag[0].isdigit() or int(tag[0]) in got:
+        if len(tag) != 1 or not tag[0].isdigit():
             okt = False
             break
-        got[int(tag[0])] = int(idx)
-    if not okt or got != rep_of:
+        got.append((int(tag[0]), int(idx)))
+    if not okt or sorted(got) != sorted(rep_pairs):
         ctx.violation("tags-do-not-map-to-representatives",
-                      f"tags give {got}, oracle {rep_of}", case)
+                      f"tags give {sorted(got)}, oracle {sorted(rep_pairs)}",
+                      case)
     D = np.asarray(inst.distances)
     Fl = np.asarray(inst.flows)
     if D.shape != (k, k) or Fl.shape != (k, k):
@@ -275,7 +297,9 @@ def judge_instance(ctx, case):
         ctx.count(f"big_n[{k}]")
     for i in rows_judged:
         row = [df(reps[i][1], reps[j][1]) for j in range(k)]
-        rk = avg_ranks(row)
+        # neighbours are ranked among each other (1 = nearest); an object is
+        # not its own neighbour, whatever the function says about d(x, x)
+        rk = avg_ranks([-1 if j == i else row[j] for j in range(k)])
         if int(Fl[i, i]) != 0:
             ctx.violation("flow-diagonal-nonzero", f"flows[{i}][{i}] = "
                           f"{Fl[i, i]}", case)
